@@ -79,13 +79,13 @@ def gen(ctx):
         for g in C.enum_graphs(n, C.ADMG_STATES_CYC + [("U",), ("U", "D>"), ("U", "B")]):
             i += 1
             yield {"g": g, "fam": fams[i % 5], "src": "exh%d" % n}
-    keep = 1.0 if tier == "thorough" else 0.22      # quick: a seeded 22% sample of the 46656 four-node graphs
+    keep = 1.0      # all 46656 four-node graphs in both tiers
     for g in C.enum_graphs(4, C.ADMG_STATES):
         if keep < 1.0 and rng.random() > keep:
             continue
         i += 1
         yield {"g": g, "fam": ("int", "bigint", "str", "tuple")[i % 4], "src": "exh4" if keep == 1.0 else "smp4"}
-    N = 3000 if tier == "quick" else 60000
+    N = 4000 if tier == "quick" else 150000
     for j in range(N):
         n = rng.choice((5, 5, 5, 6)) if tier == "quick" else rng.choice((5, 5, 6, 6, 7))
         k = rng.random()
@@ -205,7 +205,7 @@ def run(ctx):
     import time
     ev, out = ctx["ev"], ctx["out"]
     ev.rule = ("every graph on 1-3 nodes over pair states {none,->,<-,<->,->+<->,<-+<->,-><-,-><-+<->,--,--+->,--+<->} and every graph "
-               "on 4 nodes over {none,->,<-,<->,->+<->,<-+<->} (46656 graphs, cyclic ones included for valid_mag; quick tier: a seeded 22% sample); random n=5..7: "
+               "on 4 nodes over {none,->,<-,<->,->+<->,<-+<->} (46656 graphs, cyclic ones included for valid_mag); random n=5..7: "
                "ancestral graphs, arbitrary ADMGs with bows, cyclic graphs, graphs with undirected edges, collider-chain "
                "(primitive inducing path) shapes; shuffled insertion order, five label families. The implementation's booleans are "
                "compared with the definition decided in Lean by enumerating all subsets of the other nodes (proved m-separation). "
@@ -226,7 +226,7 @@ def run(ctx):
         bad += eval_chunk(ctx, ch)
         if sum(1 for _, v in bad if v[0] == "violation") > 50:
             break
-    ev.extra["exhaustive_part"] = ("all graphs on <=3 nodes" + (" and all 46656 graphs on 4 nodes" if ctx["tier"] == "thorough" else "; 4 nodes sampled") + " over the listed pair states")
+    ev.extra["exhaustive_part"] = "all graphs on <=3 nodes and all 46656 graphs on 4 nodes over the listed pair states"
     if bad:
         seen = set()
         drv = C.Driver()
